@@ -30,6 +30,7 @@ import Pakhi.Lemmas.FrameInv
 import Pakhi.Lemmas.OutFrame
 import Pakhi.Lemmas.Relabel5
 import Pakhi.Lemmas.FrameX5
+import Pakhi.Lemmas.FrameX6
 
 namespace Pakhi
 namespace C19
@@ -212,6 +213,96 @@ example : NoRefs [(['k'], Val.num 0)] ∧ avL (keysOf [(['k'], Val.num 0)]) [Stm
   refine ⟨?_, ?_⟩
   · intro kv hkv; simp at hkv; subst hkv; exact ⟨fun i h => Val.noConfusion h, fun i h => Val.noConfusion h⟩
   · intro st hst; simp at hst; rcases hst with rfl | rfl <;> simp [avS, avE]
+
+/-- the frame theorem for collection-free runs: here the leftover bindings may hold anything, containers included -/
+theorem leftover_bindings_are_invisible_without_collections (X : Scope) (prog : List Stmt) (hprog : avL (keysOf X) prog)
+    (f k : Nat) (cur : List Stmt) (s : St) (hd : Dom (keysOf X) s) (hcur : avL (keysOf X) cur) :
+    runLoop prog .never f k cur (TX X s) = (runLoop prog .never f k cur s).rn (TX X) :=
+  runLoop_frameX_never X prog hprog f k cur s hd hcur
+
+/-- the empty top-level state: one empty scope, nothing printed -/
+def bare (w : World) : St := { scopes := [[]], heap := Heap.empty, out := [], loops := [], flags := [], world := w }
+
+theorem init_is_bare_plus_platform (w : World) : St.init w = TX [(platformConst, .str w.platform)] (bare w) := rfl
+
+/-- the state a container-free, residue-free earlier fragment leaves behind: its bindings `X` (on top of the built-in constant) in the
+    one top-level scope, its output `o1`, the world as it left it -/
+def afterPrefix (X : Scope) (o1 : List Out) (w : World) : St :=
+  (TX ((platformConst, .str w.platform) :: X) (bare w)).under o1
+
+/-- **compose, for an earlier fragment that left only scalar / function bindings and output** (same program text for both runs): a
+    program that mentions neither the earlier fragment's names nor `_প্ল্যাটফর্ম` ends, when started after that fragment, exactly as when
+    started on its own — the same error, or the same final heap and world with the output of the fragment underneath its own output —
+    for every collection schedule and fuel.  (What is still missing for the full statement: the earlier fragment's containers (C07
+    theory), its flag residue (false in general, `stray_else_observes_flag_residue`), and that the later fragment's code sits inside a
+    longer program.) -/
+theorem compose_after_scalar_prefix (X : Scope) (hX : NoRefs X) (o1 : List Out) (w : World) (prog : List Stmt)
+    (hprog : avL (platformConst :: keysOf X) prog) (g : GcMode) (f : Nat) :
+    (match runLoop prog g f 0 prog (afterPrefix X o1 w), runLoop prog g f 0 prog (St.init w) with
+      | .ok s', .ok s => s'.out = s.out ++ o1 ∧ s'.heap = s.heap ∧ s'.world = s.world ∧ s'.flags = s.flags ∧ s'.loops = s.loops
+      | .err e', .err e => e' = { e with out := e.out ++ o1 }
+      | .panic p', .panic p => p' = p
+      | .fuel, .fuel => True
+      | _, _ => False) := by
+  have hX' : NoRefs ((platformConst, Val.str w.platform) :: X) := by
+    intro kv hkv
+    simp only [List.mem_cons] at hkv
+    rcases hkv with rfl | hkv
+    · exact ⟨fun i h => Val.noConfusion h, fun i h => Val.noConfusion h⟩
+    · exact hX kv hkv
+  have hk1 : keysOf ((platformConst, Val.str w.platform) :: X) = platformConst :: keysOf X := rfl
+  have hp2 : avL (keysOf ((platformConst, Val.str w.platform) :: X)) prog := by rw [hk1]; exact hprog
+  have hp1 : avL (keysOf [(platformConst, Val.str w.platform)]) prog :=
+    avL_mono (platformConst :: keysOf X) _ (fun n hn => by simp [keysOf] at hn; simp [hn]) prog hprog
+  have hd : Dom (keysOf ((platformConst, Val.str w.platform) :: X)) (bare w) := ⟨by simp [bare], by simp [bare]⟩
+  have hd1 : Dom (keysOf [(platformConst, Val.str w.platform)]) (bare w) := ⟨by simp [bare], by simp [bare]⟩
+  have hnr1 : NoRefs [(platformConst, Val.str w.platform)] := by
+    intro kv hkv; simp at hkv; subst hkv; exact ⟨fun i h => Val.noConfusion h, fun i h => Val.noConfusion h⟩
+  -- both runs are the run from the bare state, with different bindings added
+  have e1 := runLoop_frameX _ hX' prog hp2 g f 0 prog (bare w) hd hp2
+  have e2 := runLoop_frameX _ hnr1 prog hp1 g f 0 prog (bare w) hd1 hp1
+  have e3 := runLoop_under prog o1 g f 0 prog (TX ((platformConst, Val.str w.platform) :: X) (bare w))
+  rw [afterPrefix, e3, e1, init_is_bare_plus_platform, e2]
+  cases runLoop prog g f 0 prog (bare w) <;> simp [Res.rn, Res.under, TX, St.under, PErr.under]
+
+theorem bare_ok (prog : List Stmt) (w : World) : StOK (InProg prog) prog (bare w) :=
+  ⟨⟨by simp [bare, Heap.empty], by simp [bare, Heap.empty], by simp [bare, Heap.empty], by simp [bare, Heap.empty]⟩,
+   ⟨by simp [bare], by intro sc hsc; simp [bare] at hsc; subst hsc; intro kv hkv; simp at hkv⟩,
+   by simp [bare]⟩
+
+/-- **compose, with the later fragment sitting inside the longer program**: `pre` is any earlier code (its statements are part of the
+    program the interpreter holds, its function bodies included); the state is the one a container-free, residue-free earlier fragment
+    leaves (`afterPrefix`).  The later part `prog` — well-formed, mentioning neither the earlier names nor `_প্ল্যাটফর্ম` — then runs
+    inside `pre ++ prog` exactly as `prog` run as a program of its own from the initial state: the same error, or the same final heap,
+    world, flags and loops with the earlier output underneath its own; for every collection schedule and fuel.  Together with
+    `moved_fragment_same_run` (the later part's lines are shifted by the length of the earlier code) this is the compose statement for
+    such earlier fragments, up to how `pre` itself got the interpreter into that state. -/
+theorem compose_inside_longer_program (X : Scope) (hX : NoRefs X) (o1 : List Out) (w : World) (pre prog : List Stmt)
+    (hwf : progWF prog = true) (hprog : avL (platformConst :: keysOf X) prog) (g : GcMode) (f : Nat) :
+    (match runLoop (pre ++ prog) g f 0 prog (afterPrefix X o1 w), runLoop prog g f 0 prog (St.init w) with
+      | .ok s', .ok s => s'.out = s.out ++ o1 ∧ s'.heap = s.heap ∧ s'.world = s.world ∧ s'.flags = s.flags ∧ s'.loops = s.loops
+      | .err e', .err e => e' = { e with out := e.out ++ o1 }
+      | .panic p', .panic p => p' = p
+      | .fuel, .fuel => True
+      | _, _ => False) := by
+  have hX' : NoRefs ((platformConst, Val.str w.platform) :: X) := by
+    intro kv hkv
+    simp only [List.mem_cons] at hkv
+    rcases hkv with rfl | hkv
+    · exact ⟨fun i h => Val.noConfusion h, fun i h => Val.noConfusion h⟩
+    · exact hX kv hkv
+  have hk1 : keysOf ((platformConst, Val.str w.platform) :: X) = platformConst :: keysOf X := rfl
+  have hp2 : avL (keysOf ((platformConst, Val.str w.platform) :: X)) prog := by rw [hk1]; exact hprog
+  have hp1 : avL (keysOf [(platformConst, Val.str w.platform)]) prog :=
+    avL_mono (platformConst :: keysOf X) _ (fun n hn => by simp [keysOf] at hn; simp [hn]) prog hprog
+  have hd1 : Dom (keysOf [(platformConst, Val.str w.platform)]) (bare w) := ⟨by simp [bare], by simp [bare]⟩
+  have hnr1 : NoRefs [(platformConst, Val.str w.platform)] := by
+    intro kv hkv; simp at hkv; subst hkv; exact ⟨fun i h => Val.noConfusion h, fun i h => Val.noConfusion h⟩
+  have e1 := runLoop_px _ hX' pre prog hp2 hwf g f 0 prog (bare w) (IsSuffixOf.refl prog) (bare_ok prog w)
+  have e2 := runLoop_frameX _ hnr1 prog hp1 g f 0 prog (bare w) hd1 hp1
+  have e3 := runLoop_under (pre ++ prog) o1 g f 0 prog (TX ((platformConst, Val.str w.platform) :: X) (bare w))
+  rw [afterPrefix, e3, e1, init_is_bare_plus_platform, e2]
+  cases runLoop prog g f 0 prog (bare w) <;> simp [Res.rn, Res.under, TX, St.under, PErr.under]
 
 end C19
 end Pakhi
